@@ -15,7 +15,7 @@
 From Coq Require Import QArith Qabs Sorted Permutation.
 From CKT Require Import Common.Base Common.Circ Model.Decompose Model.Measurement Model.ResetPasses
   Model.Experiments Proofs.DecomposeP Proofs.MeasurementP Proofs.ResetPassesP Proofs.ExperimentsP Proofs.ExperimentsC.
-From CKT Require Model.Weights Model.Observables Model.Grouping Proofs.GroupingP.
+From CKT Require Model.Weights Model.Observables Model.Grouping Proofs.GroupingP Proofs.RoundtripP.
 Close Scope Q_scope.
 
 (* ------------------------------------------------------------------------------------------------
@@ -74,6 +74,21 @@ Proof.
   split; [rewrite <- (Forall2_length' _ _ _ HF); apply sort_length|split; [exact HF|apply total_weight_eq]].
 Qed.
 
+(* c05_coeffs is a read-off of `core` for ANY association list W.  A Python dict has distinct keys and
+   generate_qpd_weights returns positive weights; for such W (what "one coefficient per DISTINCT sampled joint map"
+   is about) the sorted samples still have distinct keys and the total weight is positive, i.e. the division of the
+   coefficient formula is a genuine one.  (For a list with total weight 0 the model divides in Q and answers 0 where
+   Python produces nan or ZeroDivisionError: outside this theorem's premises, never generated.) *)
+Theorem c05_coeffs_distinct : forall gh gsx env C table og W out coeffs,
+  core gh gsx env C table og W = Ok (out, coeffs) ->
+  NoDup (map s_ids W) -> W <> [] -> (forall s, In s W -> (0 < s_w s)%Q) ->
+  length coeffs = length W /\
+  NoDup (map s_ids (sort_samples W)) /\
+  (0 < total_weight W)%Q /\
+  Forall2 (fun s c => exists cs, chosen_coeffs C (s_ids s) = Ok cs /\
+             c = (coeff_value (total_weight W) (kappa_all C) (s_w s) cs, s_t s)) (sort_samples W) coeffs.
+Proof. exact coeffs_distinct. Qed.
+
 (* chosen_coeffs picks C_j[m_j] for every cut j (and only succeeds on a joint map of the right length and range) *)
 Theorem c05_chosen : forall C ids cs, chosen_coeffs C ids = Ok cs ->
   length ids = length C /\ Forall2 (fun p c => nth_error (fst p) (snd p) = Some c) (combine C ids) cs.
@@ -97,11 +112,21 @@ Proof.
   - intros s cs Hs. apply Hp. eapply Permutation_in; [apply Permutation_sym, sort_perm|exact Hs].
 Qed.
 
-(* the sign law *)
-Theorem c05_coeffs_sign : forall total kap w cs,
+(* the sign law, as a fact about the formula ... *)
+Theorem c05_coeff_value_sign : forall total kap w cs,
   (0 < w)%Q -> (0 < total)%Q -> (0 < kap)%Q ->
   qsign (coeff_value total kap w cs) = qsign (prodQ cs).
 Proof. exact sign_coeff. Qed.
+
+(* ... and on the coefficients `core` returns, for any budget: every coefficient has the sign of the product of its
+   maps' coefficients when the weights are positive (oracle premise for finite budgets, see section 8) *)
+Theorem c05_coeffs_sign : forall gh gsx env C table og W out coeffs,
+  core gh gsx env C table og W = Ok (out, coeffs) ->
+  (forall v, In v C -> ~ (kappa_of v == 0)%Q) ->
+  (forall s, In s W -> (0 < s_w s)%Q) ->
+  Forall2 (fun s c => exists cs, chosen_coeffs C (s_ids s) = Ok cs /\ qsign (fst c) = qsign (prodQ cs))
+          (sort_samples W) coeffs.
+Proof. exact sign_core. Qed.
 
 Theorem c05_kappa_nonneg : forall C, (0 <= kappa_all C)%Q.
 Proof. exact kappa_all_nonneg. Qed.
@@ -158,7 +183,10 @@ Qed.
       nc0 + nobs + k, [final resets dropped when the group measures nothing], followed by the rotations and
       measurements of the group (C11's suffix) into clbits nc0 .. nc0 + nobs - 1; registers: the old ones, then
       observable_measurements (nobs bits), then qpd_measurements (max 1 #markers bits).
-      AFTER the passes: the same up to deleted Reset instructions; no placeholder, no marker. *)
+      AFTER the passes: the same up to deleted Reset instructions (WHICH resets go is property C12's/C19's statement:
+      del_resets alone allows any subset); no placeholder, no marker.  Every measured index is a qubit of the circuit,
+      so the `nth .. 0` defaults in c05_observable_bits are never met; `splice`'s default for an out-of-range map id is
+      never met either because `valid` carries the range condition. *)
 Theorem c05_shape : forall gh gsx env table joint l g e,
   table_wf table -> built gh gsx env table joint l g e ->
   exists p ms,
@@ -170,11 +198,15 @@ Theorem c05_shape : forall gh gsx env table joint l g e,
     e = spec_exp gh gsx env (pi_qc p) (pi_ids p) ms g /\
     mnq (optimise e) = mnq e /\ mnc (optimise e) = mnc e /\ mcregs (optimise e) = mcregs e /\
     del_resets (mdata e) (mdata (optimise e)) /\
+    (forall s, In s (pauli_indices_or_dummy (og_indices g)) -> s < mnq (pi_qc p)) /\
     (forall y, In y (mdata (optimise e)) -> is_qpd y = false /\ is_marker y = false).
 Proof.
   intros gh gsx env table joint l g e Hwf Hb.
   destruct (built_shape _ _ _ _ _ _ _ _ Hwf Hb) as (p & ms & Hp & Hms & Hv & Hr & Hn & He).
   destruct (optimise_shape e) as (O1 & O2 & O3 & O4).
+  assert (Hidx : forall s, In s (pauli_indices_or_dummy (og_indices g)) -> s < mnq (pi_qc p)).
+  { destruct Hb as (p' & ms' & Hp' & _ & Hb1). rewrite Hp in Hp'. inversion Hp'; subst p'.
+    exact (build1_indices _ _ _ _ _ _ _ _ Hb1). }
   exists p, ms. repeat (split; [assumption|]).
   intros y Hy. apply (del_resets_In _ _ _ O4) in Hy. subst e. eapply spec_exp_clean; eauto.
 Qed.
@@ -247,8 +279,9 @@ Theorem c05_scans : forall c i,
 Proof. intros c i. split; [apply mapping_scan_spec|apply get_bases_spec]. Qed.
 
 (* the coefficient of cut k is taken from bases[k]: `bases` lists the stored bases by ascending cut id, the circuits
-   use joint[k] — the two agree because a successful projection only uses cut ids below len(joint) = len(bases),
-   and then the ids are exactly 0..n-1 and position k of `bases` holds the basis of a placeholder labelled _k *)
+   use joint[k].  When every cut id is below len(bases) (an input precondition: a successful projection enforces it
+   only for partitions that occur in `observables`), position k of `bases` holds the basis of SOME placeholder
+   labelled _k.  (Stronger, two-directional form: c05_bases_aligned_full.) *)
 Theorem c05_bases_aligned : forall d,
   (forall x k, In x (all_instrs d) -> suffix_of x = Some (Some k) -> k < length (bases_by_partition d)) ->
   forall x k, In x (all_instrs d) -> suffix_of x = Some (Some k) ->
@@ -256,9 +289,47 @@ Theorem c05_bases_aligned : forall d,
               exists x', In x' (all_instrs d) /\ cut_of x' = Some (k, b).
 Proof. exact bases_aligned. Qed.
 
+(* both directions.  (1) every position of `bases` belongs to a cut that occurs: the ids are exactly 0..n-1.
+   (2) `_get_bases_by_partition` stores, per cut id, the basis of the LAST placeholder it meets; neither it nor `generate`
+   compares the bases of the two halves of a cut (OBSERVATION: two halves with different basis objects are accepted by
+   the Python code and by the model; that both halves carry one basis is partition_problem's output contract, C10).
+   Under that premise bases[k] is THE handle of every placeholder labelled _k, so coefficient and circuit use the
+   same map of the same basis. *)
+Theorem c05_bases_aligned_full : forall d,
+  (forall x k, In x (all_instrs d) -> suffix_of x = Some (Some k) -> k < length (bases_by_partition d)) ->
+  (forall j, j < length (bases_by_partition d) -> exists x b, In x (all_instrs d) /\ cut_of x = Some (j, b)) /\
+  ((forall x x' k b b', In x (all_instrs d) -> In x' (all_instrs d) ->
+      cut_of x = Some (k, b) -> cut_of x' = Some (k, b') -> b = b') ->
+   forall x k b, In x (all_instrs d) -> cut_of x = Some (k, b) -> nth_error (bases_by_partition d) k = Some b).
+Proof. exact bases_aligned_full. Qed.
+
 Theorem c05_project_bound : forall joint sfx ms k,
   project joint sfx = Ok ms -> In k sfx -> k < length joint.
 Proof. exact project_bound. Qed.
+
+(* ------------------------------------------------------------------------------------------------
+   6b. totality (separated form): an in-domain request is ANSWERED.  In-domain: num_samples >= 1 or inf; every
+   ObservableCollection was built; no subcircuit has a register named observable_measurements, a two-qubit placeholder
+   or a one-qubit placeholder without numeric suffix; every observable label is a circuit label, its groups have the
+   circuit's width and measure qubits of the circuit; every joint map of the dictionary selects a coefficient in every
+   basis and gives every placeholder (through its cut id) a map id that is in range for that placeholder's basis.
+   The decomposition requests issued on the way are `valid` C14 requests (scan-to-valid, c05_scan_valid), so
+   c05_generate_is_core / c05_coeffs / c05_counts_layout / c05_shape are not vacuous on such requests. *)
+Theorem c05_scan_valid : forall env c ids sfx joint ms,
+  mapping_scan 0 c = Ok (ids, sfx) -> project joint sfx = Ok ms ->
+  (forall x, In x c -> is_qpd2 x = false) ->
+  (forall x k b, In x c -> cut_of x = Some (k, b) ->
+     exists m, nth_error joint k = Some m /\ m < length (nth b env [])) ->
+  valid env c ids (map Z.of_nat ms).
+Proof. exact scan_valid. Qed.
+
+Theorem c05_generate_total : forall gh gsx env cenv d od og N W,
+  ge1 N = true -> all_groups od = Ok og ->
+  (forall l qc, In (l, qc) d -> circuit_ok qc) ->
+  (forall l gs, In (l, gs) og -> exists qc, alookup d l = Some qc /\ forall g, In g gs -> group_ok qc g) ->
+  (forall s, In s W -> sample_ok env (map (fun b => nth b cenv []) (bases_by_partition d)) d (s_ids s)) ->
+  exists dd coeffs, generate gh gsx env cenv (CDict d) (ODict od) N W = Ok (OutDict dd, coeffs).
+Proof. exact generate_total. Qed.
 
 (* ------------------------------------------------------------------------------------------------
    7. refusals, in source order *)
@@ -392,6 +463,8 @@ Print Assumptions c05_tables.
 Print Assumptions c05_coeffs.
 Print Assumptions c05_chosen.
 Print Assumptions c05_coeffs_sum.
+Print Assumptions c05_coeffs_distinct.
+Print Assumptions c05_coeff_value_sign.
 Print Assumptions c05_coeffs_sign.
 Print Assumptions c05_kappa_nonneg.
 Print Assumptions c05_exact_total.
@@ -406,6 +479,9 @@ Print Assumptions c05_qpd_bits.
 Print Assumptions c05_projection.
 Print Assumptions c05_scans.
 Print Assumptions c05_bases_aligned.
+Print Assumptions c05_bases_aligned_full.
+Print Assumptions c05_scan_valid.
+Print Assumptions c05_generate_total.
 Print Assumptions c05_project_bound.
 Print Assumptions c05_refuse_types.
 Print Assumptions c05_refuse_num_samples.
@@ -429,10 +505,10 @@ Theorem c05_c04_dictionary : forall C perms N tape r,
   forall s, In s W -> exists cs, chosen_coeffs C (s_ids s) = Ok cs /\ ~ (prodQ cs == 0)%Q.
 Proof. exact c04_dictionary_ok. Qed.
 
-(* INFINITE budget, end to end for the coefficients — no hypothesis about the weights is left:
+(* INFINITE budget, sum and sign for the coefficients `core` returns — no hypothesis about the weights is left:
    one coefficient per entry of the C04 dictionary, sum |coeff| = prod kappa, sign = sign of the product.
    (Hypotheses: every basis has kappa <> 0 and a probability above the 1e-14 cut-off; the dictionary is not empty.) *)
-Theorem c05_inf_budget_end_to_end : forall gh gsx env C table og perms tape r out coeffs,
+Theorem c05_inf_budget_sum_sign : forall gh gsx env C table og perms tape r out coeffs,
   (forall v, In v C -> ~ (kappa_of v == 0)%Q) ->
   Forall (fun v => exists x, In x v /\ (Extracted.Facts.nonzero_atol < x)%Q) (probs_of C) ->
   Weights.gen_weights (probs_of C) perms Weights.PInf tape = Some (Ok r) -> r <> [] ->
@@ -443,6 +519,37 @@ Theorem c05_inf_budget_end_to_end : forall gh gsx env C table og perms tape r ou
   Forall2 (fun s c => exists cs, chosen_coeffs C (s_ids s) = Ok cs /\ qsign (fst c) = qsign (prodQ cs))
           (sort_samples W) coeffs.
 Proof. exact inf_budget_coefficients. Qed.
+
+(* INFINITE budget, exactness: if no joint map has a probability strictly between 0 and the 1e-14 cut-off
+   (RoundtripP.no_subcutoff_map; otherwise the dropped maps make the total < 1 and the clause is false), the dictionary
+   generate_qpd_weights returns satisfies exact_weights and every coefficient EQUALS the product of its maps' coefficients *)
+Theorem c05_inf_budget_exact : forall gh gsx env C table og perms tape r out coeffs,
+  (forall v, In v C -> ~ (kappa_of v == 0)%Q) ->
+  Forall (fun v => exists x, In x v /\ (Extracted.Facts.nonzero_atol < x)%Q) (probs_of C) ->
+  RoundtripP.no_subcutoff_map C ->
+  Weights.gen_weights (probs_of C) perms Weights.PInf tape = Some (Ok r) ->
+  let W := of_wdict (Weights.final_sort r) in
+  exact_weights C W /\
+  (core gh gsx env C table og W = Ok (out, coeffs) ->
+   Forall2 (fun s c => exists cs, chosen_coeffs C (s_ids s) = Ok cs /\ (fst c == prodQ cs)%Q) (sort_samples W) coeffs).
+Proof. exact inf_budget_exact. Qed.
+
+(* the same, tied together on the public model function: budget inf, C = the coefficient lists of the problem's own
+   bases, W = final_sort of the C04 model's result on the probabilities of exactly those bases *)
+Theorem c05_generate_inf : forall gh gsx env cenv d od perms tape r dd coeffs,
+  let C := map (fun b => nth b cenv []) (bases_by_partition d) in
+  let W := of_wdict (Weights.final_sort r) in
+  (forall v, In v C -> ~ (kappa_of v == 0)%Q) ->
+  Forall (fun v => exists x, In x v /\ (Extracted.Facts.nonzero_atol < x)%Q) (probs_of C) ->
+  Weights.gen_weights (probs_of C) perms (Weights.PInf) tape = Some (Ok r) -> r <> [] ->
+  generate gh gsx env cenv (CDict d) (ODict od) (of_num Weights.PInf) W = Ok (OutDict dd, coeffs) ->
+  length coeffs = length r /\
+  (sumQ (map (fun c => Qabs (fst c)) coeffs) == kappa_all C)%Q /\
+  Forall2 (fun s c => exists cs, chosen_coeffs C (s_ids s) = Ok cs /\ qsign (fst c) = qsign (prodQ cs))
+          (sort_samples W) coeffs /\
+  (RoundtripP.no_subcutoff_map C ->
+   Forall2 (fun s c => exists cs, chosen_coeffs C (s_ids s) = Ok cs /\ (fst c == prodQ cs)%Q) (sort_samples W) coeffs).
+Proof. exact generate_inf_dict. Qed.
 
 (* FINITE budgets: FULL STATEMENT (not proved): the same conclusion sum |coeff| = prod kappa for every dictionary the C04
    model returns.  PROVED (hence _partial): the hypothesis "no chosen product is 0" is discharged from the C04 model
@@ -533,8 +640,97 @@ Proof.
   - vm_compute. reflexivity.
 Qed.
 
+(* ---------------- examples added after the proof audit ---------------- *)
+(* the unseparated call form succeeds: two two-qubit placeholders, two groups, three samples -> 6 circuits *)
+Definition exS : mcirc :=
+  mkMC 2 0 [] [ mkI (Gate 1) [0] []; mkI (Qpd2 0 None None) [0; 1] []; mkI (Gate 2) [1] []; mkI (Qpd2 1 None None) [1; 0] [] ].
+Example c05_ex_single :
+  get_bases 0 (mdata exS) = Ok ([0; 1], [[1]; [3]]) /\
+  exists l coeffs,
+    generate 20 21 exEnv exCenv (CSingle exS) (OPaulis (Ok [mkOG [3; 1] [0; 1]; mkOG [0; 0] []])) (NFin 7) exW
+      = Ok (OutList l, coeffs) /\ length l = 3 * 2 /\ length coeffs = 3 /\
+    (* sample 0 = maps (1, 1): cut 0 -> (BMeas on qubit 0, gate 12 on qubit 1); cut 1 on qubits (1, 0) -> (gate 14, reset) on
+       qubit 1 and reset on qubit 0, which is followed by the Z measurement and therefore stays *)
+    nth_error l 0 = Some (mkMC 2 3 [(true, [0; 1]); (false, [2])]
+                            [ mkI (Gate 1) [0] []; mkI Measure [0] [2]; mkI (Gate 12) [1] []; mkI (Gate 2) [1] [];
+                              mkI (Gate 14) [1] []; mkI Reset [1] []; mkI Reset [0] []; mkI Measure [0] [0];
+                              mkI (Gate 20) [1] []; mkI Measure [1] [1] ]).
+Proof. split; [reflexivity|]. eexists; eexists. split; [vm_compute; reflexivity|]. vm_compute. repeat split; reflexivity. Qed.
+
+(* a finite budget that really draws: N = 3 on four equiprobable joint maps, tape of numpy.random.choice answers;
+   three SAMPLED entries of positive weight — the premises of c05_coeffs_sum_c04_partial / c05_coeffs_sign hold *)
+Example c05_ex_c04_sampled :
+  exists r, Weights.gen_weights (probs_of exCenv) exPerms (Weights.Fin 3) [0; 1; 1; 0; 1; 0; 0; 0; 1; 1] = Some (Ok r) /\
+    map (fun s => s_t s) (of_wdict (Weights.final_sort r)) = [KSampled; KSampled; KSampled] /\
+    NoDup (map s_ids (of_wdict (Weights.final_sort r))) /\
+    (forall s, In s (of_wdict (Weights.final_sort r)) -> (0 < s_w s)%Q) /\
+    exists dd coeffs, generate 20 21 exEnv exCenv (CDict exD) (ODict exOD) (NFin 3) (of_wdict (Weights.final_sort r))
+                      = Ok (OutDict dd, coeffs) /\ length coeffs = 3.
+Proof.
+  eexists. split; [vm_compute; reflexivity|]. split; [vm_compute; reflexivity|].
+  split; [vm_compute; repeat constructor; simpl; intuition discriminate|].
+  split; [vm_compute; intros s [<-|[<-|[<-|[]]]]; reflexivity|].
+  eexists; eexists. split; vm_compute; reflexivity.
+Qed.
+
+(* the premises of c05_build_total are inhabited: partition exA, its scan's request, map ids (1, 0, 0) *)
+Example c05_ex_build_total :
+  valid exEnv (mdata exA) [[1]; [3]; [4]] (map Z.of_nat [1; 0; 0]) /\
+  existsb fst (mcregs exA) = false /\ length (og_general (mkOG [3; 1] [0; 1])) = mnq exA /\
+  (forall s, In s (pauli_indices_or_dummy [0; 1]) -> s < mnq exA) /\
+  exists e, build1 20 21 exEnv exA [[1]; [3]; [4]] [1; 0; 0] (mkOG [3; 1] [0; 1]) = Ok e.
+Proof.
+  split; [apply validb_sound; vm_compute; reflexivity|]. split; [reflexivity|]. split; [reflexivity|].
+  split; [intros s [<-|[<-|[]]]; simpl; auto|]. eexists. vm_compute. reflexivity.
+Qed.
+
+(* the premises of c05_generate_total hold for the running example (two partitions, two cuts, identity group) *)
+Example c05_ex_generate_total :
+  ge1 NPosInf = true /\ all_groups exOD = Ok [ (7, [mkOG [3; 1] [0; 1]]); (9, [mkOG [0] []; mkOG [2] [0]]) ] /\
+  (forall l qc, In (l, qc) exD -> circuit_ok qc) /\
+  (forall l gs, In (l, gs) [ (7, [mkOG [3; 1] [0; 1]]); (9, [mkOG [0] []; mkOG [2] [0]]) ] ->
+     exists qc, alookup exD l = Some qc /\ forall g, In g gs -> group_ok qc g) /\
+  (forall s, In s exW -> sample_ok exEnv (map (fun b => nth b exCenv []) (bases_by_partition exD)) exD (s_ids s)).
+Proof.
+  split; [reflexivity|]. split; [reflexivity|]. split; [|split].
+  - intros l qc [H|[H|[]]]; inversion H; subst; (split; [reflexivity|]);
+      intros x Hx; simpl in Hx; repeat (destruct Hx as [<-|Hx]; [split; [reflexivity|discriminate]|]); destruct Hx.
+  - intros l gs [H|[H|[]]]; inversion H; subst; eexists; (split; [reflexivity|]);
+      intros g Hg; simpl in Hg; repeat (destruct Hg as [<-|Hg]; [split; [reflexivity|simpl; intros s Hs; intuition lia]|]); destruct Hg.
+  - intros s Hs. split.
+    + simpl in Hs. repeat (destruct Hs as [<-|Hs]; [eexists; vm_compute; reflexivity|]). destruct Hs.
+    + intros x k b Hx Hc. vm_compute in Hx.
+      repeat (destruct Hx as [<-|Hx]; [try discriminate Hc; inversion Hc; subst; simpl in Hs;
+              repeat (destruct Hs as [<-|Hs]; [eexists; split; [reflexivity|simpl; lia]|]); destruct Hs|]).
+      destruct Hx.
+Qed.
+
+(* no_subcutoff_map is inhabited (all four joint maps have probability 1/4), so c05_inf_budget_exact applies to the
+   dictionary of c05_ex_c04_inf *)
+Example c05_ex_no_subcutoff : RoundtripP.no_subcutoff_map exCenv.
+Proof.
+  intros ids Hin. vm_compute in Hin. destruct Hin as [<-|[<-|[<-|[<-|[]]]]]; right; unfold Qle; vm_compute; discriminate.
+Qed.
+
+(* the premises of c05_bases_aligned_full: both cut ids of exD are below len(bases) = 2 and the halves agree on the basis *)
+Example c05_ex_aligned :
+  (forall x k, In x (all_instrs exD) -> suffix_of x = Some (Some k) -> k < length (bases_by_partition exD)) /\
+  (forall x x' k b b', In x (all_instrs exD) -> In x' (all_instrs exD) ->
+     cut_of x = Some (k, b) -> cut_of x' = Some (k, b') -> b = b').
+Proof.
+  split.
+  - intros x k Hx Hk. vm_compute in Hx.
+    repeat (destruct Hx as [<-|Hx]; [try discriminate Hk; inversion Hk; subst; vm_compute; lia|]). destruct Hx.
+  - intros x x' k b b' Hx Hx' Hc Hc'. vm_compute in Hx, Hx'.
+    repeat (destruct Hx as [<-|Hx]; [try discriminate Hc; inversion Hc; subst;
+            repeat (destruct Hx' as [<-|Hx']; [try discriminate Hc'; try (inversion Hc'; subst; reflexivity)|]); destruct Hx'|]).
+    destruct Hx.
+Qed.
+
 Print Assumptions c05_c04_dictionary.
-Print Assumptions c05_inf_budget_end_to_end.
+Print Assumptions c05_inf_budget_sum_sign.
+Print Assumptions c05_inf_budget_exact.
+Print Assumptions c05_generate_inf.
 Print Assumptions c05_coeffs_sum_c04_partial.
 Print Assumptions c05_groups_from_c11.
 Print Assumptions c05_projection_all_partitions.
